@@ -188,6 +188,12 @@ theorem path_call_facts_complete :
       ["path_open", "path_filestat_get", "path_rename", "path_unlink_file", "path_remove_directory",
        "path_create_directory", "path_symlink", "path_readlink"] := by decide
 
+/-- The tracing configuration (`-DWASI_TRACE_ENABLED=1`, where every `WASI_TRACE((fmt, …))` evaluates and prints its
+    arguments) is part of the real code: regenerated by interpreting that configuration with a poisoning `free` —
+    no string argument of a trace call in / after fd_close is a released object (e.g. the path of the by-value
+    descriptor copy after `wasiDirectorySet(wasiFD, NULL)` freed it). -/
+theorem trace_arguments_are_live : Gen.Wasi.traceArgsLive = true := by decide
+
 /-- After a successful fd_close(n), at any later point of any history, every call that takes n
     (incl. a second fd_close, fd_readdir, path_open with n as directory, both arguments of
     path_rename, fd_seek with any whence) returns EBADF and changes nothing — no guest memory, no
